@@ -107,6 +107,12 @@ Orphans(s) == {b \in DOMAIN s.bars : s.bars[b].ok /\ s.bars[b].after # "" /\ b \
                                      /\ s.bars[b].after \in s.termSeen}
 Doubles(s) == {b \in DOMAIN s.bars : s.bars[b].ok /\ s.bars[b].after # "" /\
                   \E c \in DOMAIN s.bars : c # b /\ s.bars[c].ok /\ s.bars[c].after = s.bars[b].after}
+(* bars that can never get their turn because of a recorded mechanism: a second successor, a late successor, or
+   (transitively) a bar queued behind one of those *)
+RECURSIVE Behind(_, _, _)
+Behind(s, S, n) == IF n = 0 THEN S
+                   ELSE Behind(s, S \cup {b \in DOMAIN s.bars : s.bars[b].ok /\ s.bars[b].after \in S}, n - 1)
+Doomed(s) == Behind(s, Doubles(s) \cup s.lateSucc, Cardinality(DOMAIN s.bars))
 SyncBars(s) == {b \in DOMAIN s.bars : s.bars[b].nsync > 0}
 
 (* frame rules, evaluated when a frame is written *)
@@ -146,7 +152,7 @@ FrameRules(s, e) ==
                      /\ b \notin cur /\ b \notin s.gone}
       IN IF late # {} /\ ~s.fault
          THEN <<B("C17", "successor-not-shown" \o (IF late \subseteq Doubles(s) THEN "/two-successors"
-                                                    ELSE IF late \subseteq (Doubles(s) \cup s.lateSucc) THEN "/late-successor"
+                                                    ELSE IF late \subseteq Doomed(s) THEN "/late-successor"
                                                     ELSE ""), e, ToString(late))>>
          ELSE <<>>)
   \* C11: no row reports both terminal states
@@ -433,7 +439,7 @@ Check(s, e) ==
          IF s.waitAt # 0 THEN <<B("C14", "listener-after-wait", e, e.d)>> ELSE <<>>
     [] e.ev = "hang" ->
          LET why == IF s.detached # {} THEN "/detached-push"
-                    ELSE IF Orphans(s) # {} /\ Orphans(s) \subseteq (Doubles(s) \cup s.lateSucc) THEN "/orphaned-successor"
+                    ELSE IF Orphans(s) # {} /\ Orphans(s) \subseteq Doomed(s) THEN "/orphaned-successor"
                     ELSE IF s.fault /\ SyncBars(s) # {} THEN "/render-error-during-width-sync"
                     ELSE ""
              ps  == "C01,C02" \o (IF s.fault THEN ",C15" ELSE "") \o (IF Orphans(s) # {} THEN ",C17" ELSE "")
